@@ -12,6 +12,7 @@ import (
 
 	"github.com/gogpu/naga"
 	"github.com/gogpu/naga/spirv"
+	"verif/internal/irstrict"
 	"verif/internal/run"
 	"verif/internal/spvval"
 	"verif/internal/spvx"
@@ -233,4 +234,22 @@ func witnessSpirvValid(w witness) string {
 		}
 	}
 	return ""
+}
+
+// witnessIRStrict: the lowered module must satisfy the strict IR contract apart from findings attributed to OTHER known entries.
+func witnessIRStrictWith(c *run.Ctx) func(w witness) string {
+	return func(w witness) string {
+		mod, stage, err := lowerSrc(w.Src)
+		if err != nil {
+			return stage + ": " + err.Error()
+		}
+		rep := irstrict.Check(mod, irstrict.Lowered)
+		for _, f := range rep.Findings {
+			if c.KnownMatch(f.Rule+":"+normErr(f.Detail), "witness-"+w.ID+": "+f.Detail) {
+				continue
+			}
+			return f.String()
+		}
+		return ""
+	}
 }
